@@ -602,7 +602,7 @@ func inputIndexGuarded(c *core.Ctx, rels ...string) {
 				return
 			}
 			bad++
-			c.Bad("input-index-guarded@"+fname(f)+":"+p.Position(ia.Pos()), ia.Pos(), "a byte is addressed with a computed index that no dominating comparison bounds by the length of the slice (the guard, if any, is about a smaller index): input that ends one byte early panics with index out of range")
+			c.Bad(seqKey(c, "input-index-guarded@"+fname(f)), ia.Pos(), "a byte is addressed with a computed index that no dominating comparison bounds by the length of the slice (the guard, if any, is about a smaller index): input that ends one byte early panics with index out of range")
 		})
 	}
 	c.Count("computed_byte_indices", n)
@@ -701,6 +701,13 @@ func noDeleteBeforeSave(c *core.Ctx) {
 				dels = append(dels, i)
 			}
 			if core.IsInvoke(i, qDatabase, "SaveEntity") {
+				saves = append(saves, i)
+			}
+			// the same one level down: the storage's Delete followed by its Set ( "drop the old keys first" inside SaveEntity )
+			if core.IsInvoke(i, qStorage, "Delete") {
+				dels = append(dels, i)
+			}
+			if core.IsInvoke(i, qStorage, "Set") {
 				saves = append(saves, i)
 			}
 		})
